@@ -88,6 +88,8 @@ func loadRepo(dir string, overlay map[string][]byte) (*Ctx, error) {
 		c.SSA[rel] = spkgs[i]
 		c.PkgCount++
 	}
+	curLayout = nil
+	curLayout = computeLayoutAliases(c)
 	// Enumerate functions: package members, methods of every named type (AllFunctions misses methods of
 	// generic types that nothing references), closures recursively.
 	var rels []string
@@ -126,7 +128,7 @@ func loadRepo(dir string, overlay map[string][]byte) (*Ctx, error) {
 					if fn == nil {
 						continue
 					}
-					c.addFunc(rel, n+"."+meth.Name(), fn)
+					c.addFunc(rel, canonTypeName(rel, n)+"."+meth.Name(), fn)
 				}
 			}
 		}
@@ -138,7 +140,7 @@ func loadRepo(dir string, overlay map[string][]byte) (*Ctx, error) {
 				}
 				key := rel + "." + fd.Name.Name
 				if fd.Recv != nil && len(fd.Recv.List) == 1 {
-					key = rel + "." + recvTypeName(fd.Recv.List[0].Type) + "." + fd.Name.Name
+					key = rel + "." + canonTypeName(rel, recvTypeName(fd.Recv.List[0].Type)) + "." + fd.Name.Name
 				}
 				c.decls[key] = fd
 			}
